@@ -57,15 +57,9 @@ def WaitComplete (s : State) : Prop :=
 
 instance (s : State) : Decidable (WaitComplete s) := by unfold WaitComplete; split <;> infer_instance
 
-/-- each finished job is announced at most once -/
-def ReportedOnce (s : State) : Prop :=
-  ∀ g, (s.out.filter fun o => match o with
-    | .report _ g' w => g' = g && w ≠ "Stopped"
-    | _ => false).length ≤ 1
-
-/-- an announced job is no longer in the table -/
-def ReportedAbsent (s : State) : Prop :=
-  ∀ o ∈ s.out, ∀ i g w, o = Out.report i g w → w ≠ "Stopped" → ∀ j ∈ s.sh.jobs, j.gid ≠ g
+/-- no job incarnation (id, group id) is announced as finished twice, and an announced one is gone from the table
+(a later job may reuse the id, never the group id) -/
+def ReportedOnce (s : State) : Prop := (finKeys s.out).Nodup ∧ ∀ k ∈ finKeys s.out, k ∉ keys s.sh
 
 /-! ### the reference world of a session -/
 
